@@ -183,4 +183,76 @@ theorem no_shared_mutable_attribute :
 example : sel (Index.int (-1)) [10, 20, 30, 40] = some [40] := by decide
 example : sel (Index.mask [true, false, true, false]) [10, 20, 30, 40] = some [10, 30] := by decide
 
+/-! ### get_label / get_labels / get_id / get_ids -/
+
+theorem labelPositions_nil (labels : List Nat) : labelPositions labels [] = some [] := rfl
+
+theorem labelPositions_cons (labels : List Nat) (l : Nat) (ls : List Nat) :
+    labelPositions labels (l :: ls)
+      = if labels.contains l then (labelPositions labels ls).map (labels.idxOf l :: ·) else none := rfl
+
+/-- a label that the catalogue does not hold is refused (defect F45: it used to select another source) -/
+theorem labelPositions_absent (labels ls : List Nat) (l : Nat) (hl : l ∈ ls) (ha : l ∉ labels) :
+    labelPositions labels ls = none := by
+  induction ls with
+  | nil => cases hl
+  | cons x xs ih =>
+    rw [labelPositions_cons]
+    rcases List.mem_cons.mp hl with rfl | h
+    · simp [ha]
+    · split
+      · rw [ih h]; rfl
+      · rfl
+
+/-- when it succeeds, the sources returned carry exactly the requested labels, in the requested order -/
+theorem labelPositions_sound (labels ls ps : List Nat) (h : labelPositions labels ls = some ps) :
+    ps.map (fun k => labels.getD k 0) = ls ∧ ∀ k ∈ ps, k < labels.length := by
+  induction ls generalizing ps with
+  | nil => rw [labelPositions_nil] at h; cases h; simp
+  | cons x xs ih =>
+    rw [labelPositions_cons] at h
+    split at h
+    · rename_i hc
+      cases hr : labelPositions labels xs with
+      | none => rw [hr] at h; simp at h
+      | some qs =>
+        rw [hr] at h; simp only [Option.map_some, Option.some.injEq] at h
+        subst h
+        obtain ⟨h1, h2⟩ := ih qs hr
+        have hm : x ∈ labels := by simpa using hc
+        have hlt : labels.idxOf x < labels.length := List.idxOf_lt_length_iff.mpr hm
+        refine ⟨?_, ?_⟩
+        · simp only [List.map_cons, h1, List.cons.injEq, and_true]
+          rw [List.getD_eq_getElem?_getD, List.getElem?_eq_getElem hlt]
+          simp
+        · intro k hk
+          rcases List.mem_cons.mp hk with rfl | hk
+          · exact hlt
+          · exact h2 k hk
+    · cases h
+
+theorem ints_positions (n : Nat) (ps : List Nat) (h : ∀ k ∈ ps, k < n) :
+    (ps.map Int.ofNat).mapM (normIdx n) = some ps := by
+  induction ps with
+  | nil => rfl
+  | cons k ks ih =>
+    have hk : k < n := h k (List.mem_cons_self ..)
+    have hn : normIdx n (Int.ofNat k) = some k := by
+      unfold normIdx
+      have : (0 : Int) ≤ Int.ofNat k ∧ Int.ofNat k < (n : Int) := ⟨Int.natCast_nonneg k, by simp; omega⟩
+      rw [if_pos this]; rfl
+    simp only [List.map_cons, List.mapM_cons, hn, ih (fun j hj => h j (List.mem_cons_of_mem _ hj))]
+    rfl
+
+/-- `get_labels` is the integer-list index form on those positions, so everything proved for `cat[idx]` (commutation with
+    property evaluation, independence of the slice) applies to it -/
+theorem labelPositions_is_ints (labels ls ps : List Nat) (h : labelPositions labels ls = some ps) :
+    positions labels.length (.ints (ps.map Int.ofNat)) = some ps := by
+  obtain ⟨_, hlt⟩ := labelPositions_sound labels ls ps h
+  unfold positions
+  exact ints_positions _ _ hlt
+
+example : labelPositions [1, 2, 3, 10] [5] = none := by decide
+example : labelPositions [1, 2, 3, 10] [10, 2] = some [3, 1] := by decide
+
 end PhotVerif.C08
